@@ -27,6 +27,9 @@ func mapkey(m map[string]string, value string) (key string, ok bool) {
 //It returns the parameters passed when calling the function
 func parseERC20Lock(data []byte, functionSig string) (req *LockErcRequest, err error) {
 	ss := strings.Split(hex.EncodeToString(data), functionSig)
+	if len(ss) < 2 || len(ss[1]) < 128 {
+		return nil, errors.New("Transaction does not have the required input data")
+	}
 
 	tokenAmount, err := hex.DecodeString(ss[1][64:128])
 	if err != nil {
@@ -44,6 +47,9 @@ func parseERC20Lock(data []byte, functionSig string) (req *LockErcRequest, err e
 // It returns the parameters passed when calling the function
 func parseERC20Redeem(data []byte, functionSig string) (req *RedeemErcRequest, err error) {
 	ss := strings.Split(hex.EncodeToString(data), functionSig)
+	if len(ss) < 2 || len(ss[1]) < 128 {
+		return nil, errors.New("Transaction does not have the required input data")
+	}
 	tokenAddress := ss[1][88:128]
 	amount, err := hex.DecodeString(ss[1][:64])
 	if err != nil {
